@@ -177,6 +177,30 @@ func genC04(e *emitter, tier string, seed uint64) {
 			run("spent-script", cloneTx(st), pos, sats[pos], ml)
 		}
 	}
+	// the spent script carries a push at each push-opcode boundary (direct / PUSHDATA1 / PUSHDATA2 / PUSHDATA4): the script
+	// code the interpreter rebuilds for the digest must be the script that was signed
+	for _, size := range []int{75, 76, 255, 256, 65535, 65536, 70001} {
+		k := genKey(r)
+		itx := bt.NewTx()
+		if err := itx.Inscribe(&bscript.InscriptionArgs{LockingScriptPrefix: scr(p2pkhOf(k)), ContentType: "x/y", Data: r.bytes(size)}); err != nil {
+			panic(err)
+		}
+		lock := []byte(*itx.Outputs[0].LockingScript)
+		for _, ft := range []struct {
+			ht    sighash.Flag
+			flags int
+		}{{0x41, fForkID}, {0xc3, fForkID}, {0x01, 0}} {
+			tx := &bt.Tx{Version: 1, LockTime: 0}
+			tx.Inputs = append(tx.Inputs, mkInput(r.bytes(32), 0, nil, 0xffffffff, 1, scr(lock)))
+			tx.Outputs = append(tx.Outputs, &bt.Output{Satoshis: 1, LockingScript: scr(p2pkhOf(genKey(r)))})
+			if err := tx.FillInput(context.Background(), &unlocker.Simple{PrivateKey: k.priv}, bt.UnlockerParams{InputIdx: 0, SigHashFlags: ft.ht}); err != nil {
+				e.note("sign-error")
+				continue
+			}
+			res := e.run("C04.mut", fmt.Sprint(ft.flags|fAfterGenesis), descTx(tx), "0", "1", hexE(lock), descTx(tx), "0", "1", hexE(lock))
+			e.note("mut.big-push." + strings.Fields(res)[0])
+		}
+	}
 }
 
 func ownOther(i, pos int) string {
